@@ -327,6 +327,9 @@ class t2grid(object):
         """Adds a connection to the grid"""
         if newconnection is None: newconnection = t2connection()
         conname = tuple([blk.name for blk in newconnection.block])
+        for blk in newconnection.block:
+            if blk.name not in self.block or self.block[blk.name] is not blk:
+                raise Exception("Connection " + str(conname) + ": block " + blk.name + " is not in the grid.")
         if conname in self.connection:
             i = self.connectionlist.index(self.connection[conname])
             self.connectionlist[i] = newconnection
